@@ -134,7 +134,7 @@ Term(x, ok, n) == IF ok THEN Return([x EXCEPT !.pos = @ + n], "ok") ELSE Return(
 TermQuiet(x, ok, n) == IF ok THEN Return([x EXCEPT !.pos = @ + n], "ok") ELSE Return(x, "fail")
 
 \* parse_trivia(children) runs before the frame below it continues
-TriviaF == [f |-> "trivia", ph |-> "start"]
+TriviaF == [f |-> "trivia", ph |-> "start", fresh |-> TRUE, prev |-> FALSE]
 
 EvalStep(x, e) ==
   LET P == x.pos
@@ -222,16 +222,19 @@ ReturnStep(x, F) ==
                          ELSE LET x1 == DropBuf(Restore(x))
                               IN IF F.ph = "ws" /\ "COMMENT" \in DOMAIN g
                                  THEN Replace(NewBuf(Checkpoint(x1)), <<[F EXCEPT !.ph = "cm"], EvalF(Ref("COMMENT"))>>)
-                                 ELSE [x1 EXCEPT !.ctl = ButLast(@), !.ret = "none", !.supp = FALSE]
+                                 ELSE [x1 EXCEPT !.ctl = ButLast(@), !.ret = "none", !.supp = F.prev]
 
 \* parse_trivia entered (or looping): nothing when atomic or when neither rule exists
 TriviaStart(x, F) ==
   IF x.adepth > 0 \/ ~HasTrivia(g) THEN [x EXCEPT !.ctl = ButLast(@)]
   \* "with self.suppress_failures()": implicit rules never contribute to the reported failure
-  ELSE LET xs == [x EXCEPT !.supp = TRUE]
+  \* the block restores the PREVIOUS value on exit (implicit rules nest when WHITESPACE / COMMENT reach a ! rule): the frame
+  \* remembers it when the block is entered (phase "start" of a fresh frame), not when the loop comes round again
+  ELSE LET F1 == IF F.fresh THEN [F EXCEPT !.prev = x.supp, !.fresh = FALSE] ELSE F
+           xs == [x EXCEPT !.supp = TRUE]
        IN IF "WHITESPACE" \in DOMAIN g
-          THEN Replace(NewBuf(Checkpoint(xs)), <<[F EXCEPT !.ph = "ws"], EvalF(Ref("WHITESPACE"))>>)
-          ELSE Replace(NewBuf(Checkpoint(xs)), <<[F EXCEPT !.ph = "cm"], EvalF(Ref("COMMENT"))>>)
+          THEN Replace(NewBuf(Checkpoint(xs)), <<[F1 EXCEPT !.ph = "ws"], EvalF(Ref("WHITESPACE"))>>)
+          ELSE Replace(NewBuf(Checkpoint(xs)), <<[F1 EXCEPT !.ph = "cm"], EvalF(Ref("COMMENT"))>>)
 
 Step(x) ==
   LET F == TopOf(x.ctl)
